@@ -67,8 +67,18 @@ def main():
                 G = mp.global_to_patch(p)
                 ptp_identity.append(bool(np.array_equal((G @ P).toarray(), np.eye(P.shape[1]))))
                 Pg = mp.patch_to_global(p, j_global=True)
-                if Pg.shape != (mp.numdofs, int(sum(np.prod(s) for s in shapes))):
+                ntot = int(sum(np.prod(s) for s in shapes))
+                if Pg.shape != (mp.numdofs, ntot):
                     mats_ok = False
+                else:
+                    # j_global=True: the same unit entries, shifted to the patch's own column block
+                    # (offset = number of local dofs of the patches before it, computed here independently)
+                    ofs = int(sum(np.prod(s) for s in shapes[:p]))
+                    exp = np.zeros((mp.numdofs, ntot))
+                    exp[res['idx'][p], ofs + np.arange(Pd.shape[1])] = 1
+                    if not np.array_equal(Pg.toarray(), exp):
+                        mats_ok = False
+                        res['jglobal_bad'] = p
             res['mats_ok'] = mats_ok
             res['ptp_identity'] = ptp_identity
             res['status'] = 'Ok'
